@@ -327,6 +327,7 @@ def header_crc_once(ck, P, R="PAIR/header-crc-once"):
 def run(ck):
     P = prog("K1")
     ck.configs.add("K1")
+    name_comment_siblings(ck, P)
     # deflateCopy in the middle of a header field continues it at the same offset (round 9)
     from . import c14 as _c14s
     _c14s.copy_identity(ck, P)
@@ -349,3 +350,27 @@ def run(ck):
 # session 5 (round 9, D24)
 EXPLANATION = EXPLANATION + " " + (
     "FIELD/copy-identity (shared with C14): deflateCopy keeps the offset into a header field written in part. ORDER/arm-store-before-suspend: `gzindex = 0` of the GZip arm precedes the arm's suspension test.")
+
+
+def name_comment_siblings(ck, P, R="SIB/name~comment"):
+    """the Name and Comment arms of inflate's dispatch are two copies of one routine (consume a zero-terminated field, capture what
+    fits): they call the same functions and decide on the same kinds of comparisons; what differs is only which header fields
+    (name/name_max vs comment/comm_max) they touch."""
+    from .. import decoders
+    from collections import Counter
+    d = P.fn(decoders.DISPATCH)
+    if not ck.anchor("fn dispatch", d):
+        return
+    regs = decoders.mode_regions(d, 20) or {}
+    if not (ck.anchor("arm Name of dispatch", "Name" in regs) and ck.anchor("arm Comment of dispatch", "Comment" in regs)):
+        return
+    ck.use_fn(d)
+
+    def callees(arm):
+        return Counter((c.callee or "?").split("::")[-1] for c in d.live_calls() if c.bb in regs[arm] and not (c.exp or []))
+    a, b = callees("Name"), callees("Comment")
+    diff = sorted(set(a) ^ set(b))
+    ck.decide(not diff, R, "dispatch:callees", "same functions called in both arms (%d)" % len(set(a)),
+              "the Name and Comment arms of dispatch no longer call the same functions (%s only in one of them): the two header "
+              "strings are consumed or captured differently (e.g. one loses its terminating zero)" % diff, where(d))
+    ck.floor(R, len(set(a)), 8)
